@@ -189,3 +189,44 @@ Qed.
 Example script_before_key :
   acct_ltb (240 :: repeat 255 28)%N (224 :: repeat 0 28)%N = true /\ bytes_ltb (240 :: repeat 255 28)%N (224 :: repeat 0 28)%N = false.
 Proof. vm_compute. split; reflexivity. Qed.
+
+(** * The compiled Reward redeemers *)
+From Tx3 Require Import PlutusData_proofs Compile_redeemers.
+
+Section Withdrawals.
+Variable mainnet : bool.
+Variables addr_parse addr_of_string reward_of_addr : bytes -> option bytes.
+Notation withdrawal_redeemers := (withdrawal_redeemers mainnet addr_parse addr_of_string reward_of_addr).
+Notation reward_account_of := (reward_account_of mainnet addr_parse addr_of_string reward_of_addr).
+
+(** every Reward redeemer of the witness set comes from a withdrawal directive with a redeemer,
+    carries that redeemer's data, and its index is the rank of the directive's own account in
+    the ledger's order of the body's reward accounts *)
+Theorem withdrawal_redeemers_point_at_account t ws rs :
+  Forall wf_acct (map fst (from_option id [] ws)) ->
+  withdrawal_redeemers t ws = Ok rs ->
+  forall r, r ∈ rs ->
+  exists a red c cred d,
+    a ∈ withdrawal_directives t /\ data_get "redeemer" (ad_data a) = Some red /\ red <> ENone /\
+    data_get "credential" (ad_data a) = Some c /\ reward_account_of c = Ok cred /\
+    encode_redeemer red = Ok d /\
+    r = mk_ared 3 (Z.of_nat (rank_by acct_ltb cred (map fst (from_option id [] ws)))) d.
+Proof.
+  intros Hwf H r Hr. unfold Compile.withdrawal_redeemers in H.
+  match type of H with (rs0 <- omapM ?f ?l ;; _) = _ => destruct (omapM f l) as [rss| | |] eqn:E; cbn [obind] in H; try discriminate end.
+  injection H as <-. apply omapM_Forall2 in E.
+  destruct (elem_of_concat_Forall2 _ _ _ _ E Hr) as (a & xs0 & Ha & Hf & Hin).
+  destruct (data_get "redeemer" (ad_data a)) as [red|] eqn:Er; [|discriminate].
+  destruct red eqn:Ered;
+    try (injection Hf as <-; apply elem_of_nil in Hin; contradiction).
+  all: destruct (data_get "credential" (ad_data a)) as [c|] eqn:Ec; [|discriminate];
+    match type of Hf with (cred <- ?e ;; _) = _ => destruct e as [cred| | |] eqn:Ecred; cbn [obind] in Hf; try discriminate end;
+    match type of Hf with match position ?p ?l with _ => _ end = _ => destruct (position p l) as [k|] eqn:Epos; [|discriminate] end;
+    match type of Hf with (d <- ?e ;; _) = _ => destruct e as [d| | |] eqn:Ed; cbn [obind] in Hf; try discriminate end;
+    injection Hf as <-; apply elem_of_list_singleton in Hin; subst r;
+    rewrite (reward_index_is_ledger_rank _ _ _ Hwf Epos);
+    eexists a, _, c, cred, d;
+    (split; [exact Ha|]); (split; [exact Er|]); (split; [discriminate|]); (split; [exact Ec|]);
+    (split; [exact Ecred|]); (split; [exact Ed | reflexivity]).
+Qed.
+End Withdrawals.
